@@ -879,6 +879,8 @@ struct TypeMono<'a> {
     // snapshot of original generic enum defs
     enum_base: IndexMap<TastIdent, EnumDef>,
     struct_base: IndexMap<TastIdent, StructDef>,
+    /// generic types whose instances grow without bound (`enum Nest[T] { Node(Nest[Box[T]]) }`)
+    too_large: IndexSet<String>,
 }
 
 impl<'a> TypeMono<'a> {
@@ -890,6 +892,7 @@ impl<'a> TypeMono<'a> {
             map: IndexMap::new(),
             enum_base,
             struct_base,
+            too_large: IndexSet::new(),
         }
     }
 
@@ -909,6 +912,11 @@ impl<'a> TypeMono<'a> {
         };
         let new_name = TastIdent::new(&format!("{}{}", name, suffix));
         self.map.insert(key.clone(), new_name.clone());
+        if args.iter().any(|ty| ty_size(ty) > MAX_INSTANCE_TYPE_SIZE) {
+            // a type that mentions itself at an ever larger instance: stop expanding and report
+            self.too_large.insert(name.to_string());
+            return new_name;
+        }
 
         let ident = TastIdent::new(name);
 
@@ -1338,6 +1346,9 @@ pub fn mono_with_diagnostics(
     // Drop all generic enum defs to avoid Go backend panics
     m.monoenv.retain_enums(|_n, def| def.generics.is_empty());
     m.monoenv.retain_structs(|_n, def| def.generics.is_empty());
+
+    let mut too_deep = too_deep;
+    too_deep.extend(m.too_large.iter().cloned());
 
     let result = MonoFile { toplevels: new_fns };
     (result, monoenv, too_deep)
